@@ -563,6 +563,9 @@ class Engine:
         else:
             self.state = store
             self.state.set_value(self.initial_state)
+            # children the initial state adds under glob stores start
+            # from their declared defaults (as in generate_state)
+            self.state.apply_defaults()
             # build the processes' views
             self.state.build_topology_views()
             # get processes and topology from the store
